@@ -1,7 +1,11 @@
 /* C16: tree builder (tree_builder.c).  Real file included unmodified; hash objects, hasher and
  * meta-data objects are the assumed environment of env/tree_env.h. */
 #include "env/common.h"
+#ifdef USE_LIVE
+#include "env/c19_alloc_env.h"      /* funnels with live-block accounting (C19 jobs) */
+#else
 #include "env/stubs_base.h"
+#endif
 #include "tree_builder.h"
 #include "hashchain.h"
 #include "env/tree_env.h"
@@ -9,6 +13,11 @@
 #include "contracts/tree_builder_join.h"
 #include "contracts/tree_builder_insert.h"
 #include "tree_builder.c"
+#ifdef USE_LIVE
+/* struct KSI_TreeLeafHandle_st is private to tree_builder.c: these contracts (re-declarations) come after the file */
+#include "contracts/tree_builder_addleaf.h"
+#include "contracts/tree_builder_close.h"
+#endif
 
 struct KSI_CTX_st { int dummy; };
 static struct KSI_CTX_st g_ctx_obj;
@@ -126,5 +135,79 @@ void harness(void) {
 	if (res == KSI_OK && n->hash == NULL && n->metaData != NULL) REACH("meta-data node added");
 	if (res == KSI_OK && g_tr_n == TR_MAX) REACH("transcript saturated");
 	if (res != KSI_OK && n != NULL) REACH("hasher or serializer failed");
+}
+#endif
+
+#ifdef H_addleaf
+void harness(void) {
+	KSI_DataHash *hsh = nondet_bool() ? malloc(sizeof(KSI_DataHash)) : NULL;
+	KSI_MetaData *md = nondet_bool() ? malloc(sizeof(KSI_MetaData)) : NULL;
+	KSI_TreeLeafHandle *sentinel = (KSI_TreeLeafHandle *)nondet_ptr();
+	int level = nondet_int();
+	int res;
+	mk_builder();
+	if (nondet_bool()) g_tb.rootNode = &g_occ;
+	if (hsh != NULL) { hsh->ref = 1 + (nondet_bool() ? 1 : 0); hsh->ctx = NULL; }
+	if (md != NULL) { md->ref = 1; md->ctx = NULL; md->serializePayload = md_stub_serializePayload; md->toMetaDataElement = NULL; }
+	g_leaf_out = sentinel;
+	g_pin_calls = 0; g_chl_calls = 0; g_lwo_calls = 0; g_live = 5; g_alloc_failed = 0;
+	tr_init();
+	res = addLeaf(nondet_bool() ? &g_tb : NULL, hsh, md, level, nondet_bool() ? &g_leaf_out : NULL);
+	REACH("addLeaf returns");
+	if (res == KSI_OK && g_leaf_out != sentinel) REACH("leaf accepted, handle returned");
+	if (res == KSI_OK && g_tb.maxTreeLevel > 0) REACH("leaf accepted under a maximum level");
+	if (res == KSI_BUFFER_OVERFLOW && g_chl_calls == 1) REACH("leaf refused by the height pre-check");
+	if (res == KSI_OUT_OF_MEMORY && g_pin_calls == 0) REACH("allocation failed before the hand-over");
+	if (res != KSI_OK && g_pin_calls == 1) REACH("insertion failed");
+}
+#endif
+
+/* builder with at most three subtrees, in slots 0..2 (distinct childless heap nodes); every other slot is
+ * concretely empty so that the 256-slot loops unwind cheaply */
+static KSI_TreeNode *g_n0, *g_n1, *g_n2;
+static int mk_builder_small(void) {
+	g_tb.ctx = &g_ctx_obj; g_tb.ref = 1; g_tb.rootNode = NULL; g_tb.algo = KSI_HASHALG_SHA2_256;
+	g_tb.cbList = NULL; g_tb.hsr = &g_hsr; g_tb.maxTreeLevel = 0;
+	memset(g_tb.stack, 0, sizeof(g_tb.stack));
+	g_n0 = nondet_bool() ? mk_node() : NULL; g_n1 = nondet_bool() ? mk_node() : NULL; g_n2 = nondet_bool() ? mk_node() : NULL;
+	if (g_n0 != NULL && !TN_WELLFORMED(g_n0)) return 0;
+	if (g_n1 != NULL && !TN_WELLFORMED(g_n1)) return 0;
+	if (g_n2 != NULL && !TN_WELLFORMED(g_n2)) return 0;
+	g_tb.stack[0] = g_n0; g_tb.stack[1] = g_n1; g_tb.stack[2] = g_n2;
+	g_w1 = nondet_size(); g_w2 = nondet_size();
+	return 1;
+}
+
+#ifdef H_close
+void harness(void) {
+	int res; long long want = -1;
+	if (!mk_builder_small()) return;
+	if (nondet_bool()) g_tb.rootNode = &g_occ;
+	g_live = 7; g_alloc_failed = 0;
+	tr_init();
+	res = KSI_TreeBuilder_close(nondet_bool() ? &g_tb : NULL);
+	REACH("close returns");
+	/* reference fold of the property text: lowest slot first, the slot's subtree is the LEFT operand */
+	if (g_n0 != NULL) want = spec_tree_close_step(want, g_n0->level);
+	if (g_n1 != NULL) want = spec_tree_close_step(want, g_n1->level);
+	if (g_n2 != NULL) want = spec_tree_close_step(want, g_n2->level);
+	if (res == KSI_OK) {
+		__CPROVER_assert((long long)g_tb.rootNode->level == want, "close: root level equals the reference fold of the slot levels");
+		__CPROVER_assert(g_tb.rootNode->parent == NULL, "close: the root has no parent");
+		if (g_n0 != NULL && g_n1 != NULL && g_n2 == NULL)
+			__CPROVER_assert(g_tb.rootNode->leftChild == g_n1 && g_tb.rootNode->rightChild == g_n0 && g_n0->parent == g_tb.rootNode && g_n1->parent == g_tb.rootNode,
+					"close: the older subtree (higher slot) is the left child, links both ways");
+		if (g_n0 != NULL && g_n1 != NULL && g_n2 != NULL)
+			__CPROVER_assert(g_tb.rootNode->leftChild == g_n2 && g_tb.rootNode->rightChild == g_n0->parent && g_n0->parent == g_n1->parent && g_n0->parent->leftChild == g_n1,
+					"close: three subtrees are merged as (n2, (n1, n0))");
+		if (g_n0 != NULL && g_n1 == NULL && g_n2 == NULL) __CPROVER_assert(g_tb.rootNode == g_n0, "close: a single subtree is the root itself");
+		REACH("closed");
+		if (g_n0 != NULL && g_n1 != NULL && g_n2 != NULL) REACH("closed with two joins");
+	} else {
+		if (g_n0 != NULL) __CPROVER_assert(g_n0->parent == NULL && g_n0->leftChild == NULL, "close failed: subtree 0 is untouched");
+		if (g_n1 != NULL) __CPROVER_assert(g_n1->parent == NULL && g_n1->leftChild == NULL, "close failed: subtree 1 is untouched");
+		if (g_n2 != NULL) __CPROVER_assert(g_n2->parent == NULL && g_n2->leftChild == NULL, "close failed: subtree 2 is untouched");
+		if (g_n0 != NULL && g_n1 != NULL && g_n2 != NULL && g_tb.rootNode == NULL) REACH("close failed in the second join");
+	}
 }
 #endif
